@@ -443,12 +443,21 @@ IdRange   == \A o \in Ops : phase[o] # "idle" => oid[o] \in Ids
 WireUnique == \A r, q \in c2s : (r # q /\ ~r.fin /\ ~q.fin) => r.id # q.id
 (* an ID stays reserved for as long as a reply to it could still be routed to its owner *)
 Protected == \A o \in Ops : (phase[o] = "wait" /\ kind[o] \in {"single", "search"} /\ reply[o].st = "empty") => oid[o] \in used
+(* ... and for as long as the driver would still route a response under it to somebody who listens (a search being streamed) *)
+LiveRoute(i) == \/ (i \in DOMAIN resmap /\ reply[resmap[i]].st = "empty")
+                \/ (i \in DOMAIN seamap /\ itemRx[seamap[i]])
+RoutedProtected == \A i \in DOMAIN resmap \cup DOMAIN seamap : LiveRoute(i) => i \in used
 AllocAgrees == Cardinality(used) < MaxId => IsNextId(Probe(last, used), last, used)
 
 (* ---- C12 ---- *)
 Waiting(o) == (phase[o] = "wait" /\ Timed(tmo[o]) /\ reply[o].st = "empty")
               \/ (phase[o] = "next" /\ Timed(tmo[o]) /\ itemQ[o] = <<>> /\ itemTx[o])
 TimeoutExact == AbstractTime \/ \A o \in Ops : Waiting(o) => now <= deadline[o]       \* nobody is still waiting past its deadline
+(* liveness form (checked with AbstractTime, where a due timer is an enabled step, under weak fairness of the callers): a timed
+   wait always ends - with the response, an error or the timeout - whatever the driver and the peer are doing, in particular
+   while the driver is blocked inside a send *)
+TimedWait(o) == phase[o] \in {"wait", "next"} /\ Timed(tmo[o])
+TimedReturn == \A o \in Ops : TimedWait(o) ~> ~TimedWait(o)
 TimeoutKeepsConn == [][(\E o \in Ops : Timeout(o) \/ NextTimeout(o)) => drv' = drv]_vars
 
 (* ---- C13 ---- *)
